@@ -148,8 +148,7 @@ def check_case(p, ctx):
         b_top[2 * r_i] = F[j].real
         b_top[2 * r_i + 1] = F[j].imag
     M, b = infer.augment(A, b_top)
-    sM = infer.svals(M)
-    if len(sM) < len(cols) + 1 or sM[-1] < 1e-6 * sM[0]:
+    if not infer.full_column_rank(M, 1e-6):
         ctx.skip("augmented system rank deficient")
         return
     call(fsys.build_force_matrix, when=k, circle_fit_method=p["fit"], angle_limit=np.inf)
